@@ -314,6 +314,12 @@ def http_error_ctors_on_error_path(fn, split):
         if st["pl"]["l"] == 0 and bb in err_only:
             sl = fn.slice(st["rv"]["ops"][0])
             names |= set(c for c in sl.callee_names() if re.search(r"^error::HttpError::for_", c))
+    # a constructor called on the error side only whose result flows into the return value (normalised view: the body of
+    # a `map_err` closure spliced into the Err arm; `Err(ctor(..))?`; an error bound to a local first)
+    ret = fn.slice({"l": 0, "p": []})
+    for bb, t in fn.live_calls(r"^error::HttpError::for_"):
+        if bb in err_only and ("call", t["callee"], bb) in ret.atoms:
+            names.add(t["callee"])
     return names
 
 
